@@ -516,3 +516,5 @@ func (x *Ctx) anyGrid() {
 }
 
 var _ = bytcase.Index
+
+func bytcaseLower(c byte) byte { return bytcase.VerifLower(c) }
